@@ -138,8 +138,12 @@ Viol3(o) == IF o.eqab /\ o.eqbc => o.eqac THEN {} ELSE {"Transitive"}
 MaxCP == [l |-> 97, u |-> 65, d |-> 49, s |-> 33, p |-> 40, q |-> 34, b |-> 92, at |-> 64,
           dot |-> 46, sp |-> 32, del |-> 127, c80 |-> 128, c81 |-> 129, cm |-> 769,
           i130 |-> 304, ss |-> 223, fs |-> 962, fw |-> 65313,
-          ace |-> 120, ACE |-> 88, pm |-> 116, PM |-> 84]
-Sym == DOMAIN MaxCP
+          ace |-> 120, ACE |-> 88, pm |-> 116, PM |-> 84,
+          \* only in the comparison layer: letters whose lower-casing and case folding differ
+          sg |-> 963, SG |-> 931, li |-> 105, es |-> 115, ls |-> 383, kk |-> 107, KS |-> 8490]
+\* the alphabet of the one-string laws
+Sym == {"l", "u", "d", "s", "p", "q", "b", "at", "dot", "sp", "del", "c80", "c81", "cm", "i130", "ss",
+        "fs", "fw", "ace", "ACE", "pm", "PM"}
 MboxSpecial == {"p", "q", "b", "at", "sp"}      \* ( " \ @ space: force quoting
 Postmaster == {<<"pm">>, <<"PM">>}
 
@@ -199,6 +203,52 @@ ViolS(s, o) ==
   \cup (IF o.panics = <<>> THEN {} ELSE {"NoPanic"})
 
 ----------------------------------------------------------------------------
+(* layer 2b: comparison of arbitrary strings ("string2")                      *)
+(*                                                                            *)
+(* "Address comparison is an equivalence relation that coincides with         *)
+(* equality of lookup keys" carries no restriction to valid addresses (unlike *)
+(* idempotence, one key per identity and the round trips), and the doc        *)
+(* comments of Equal / ForLookup promise it for malformed operands as well    *)
+(* (the key of a malformed address is its lower-cased text).  It is therefore *)
+(* evaluated on pairs / triples of arbitrary symbol strings: Equal symmetric  *)
+(* and transitive, Equal <=> the two values ForLookup returns are equal; the  *)
+(* same for dns.Equal / dns.ForLookup.  Nothing else is demanded of malformed *)
+(* strings.                                                                   *)
+(* The alphabet holds the letters on which strings.ToLower (the key) and      *)
+(* simple case folding (strings.EqualFold) disagree: final sigma, long s,     *)
+(* dotted capital I, Kelvin sign.                                             *)
+
+Sym2 == {"l", "u", "sg", "SG", "fs", "li", "i130", "es", "ls", "kk", "KS", "at", "dot", "ace", "ACE"}
+\* strings.ToLower, symbol by symbol (checked against the real function when the harness starts)
+LowerSym == [l |-> "l", u |-> "l", sg |-> "sg", SG |-> "sg", fs |-> "fs", li |-> "li", i130 |-> "li",
+             es |-> "es", ls |-> "ls", kk |-> "kk", KS |-> "kk", at |-> "at", dot |-> "dot",
+             ace |-> "ace", ACE |-> "ace"]
+\* letters a case-insensitive comparison could take for one another (used to pick the
+\* pairs worth trying, not by any law)
+Orbit == [l |-> "a", u |-> "a", sg |-> "sigma", SG |-> "sigma", fs |-> "sigma", li |-> "i", i130 |-> "i",
+          es |-> "s", ls |-> "s", kk |-> "k", KS |-> "k", at |-> "at", dot |-> "dot", ace |-> "ace", ACE |-> "ace"]
+Strs2 == {<<>>} \cup {<<a>> : a \in Sym2} \cup {<<a, b>> : a, b \in Sym2}
+Alike(s, t) == Len(s) = Len(t) /\ \A i \in DOMAIN s : Orbit[s[i]] = Orbit[t[i]]
+
+\* the documented key where the model has one: a malformed address (Split fails) has its
+\* text lower-cased as key
+Modelled(s) == ~SplitM(s).ok
+KeyS(s) == [i \in DOMAIN s |-> LowerSym[s[i]]]
+EqualS(s, t) == s = t \/ KeyS(s) = KeyS(t)
+
+ModelP2(s, t) == [eq12 |-> EqualS(s, t), eq21 |-> EqualS(t, s), k1 |-> KeyS(s), k2 |-> KeyS(t)]
+ProjP2(o) == [eq12 |-> o.eq12, eq21 |-> o.eq21, k1 |-> o.k1, k2 |-> o.k2]
+ModelP3(s, t, u) == [eq12 |-> EqualS(s, t), eq23 |-> EqualS(t, u), eq13 |-> EqualS(s, u)]
+
+\* the laws on what was returned for two / three arbitrary strings
+ViolP2(o) ==
+  (IF o.eq12 = o.eq21 /\ ("deq12" \in DOMAIN o => o.deq12 = o.deq21) THEN {} ELSE {"SymmetricS"})
+  \cup (IF (o.eq12 <=> o.k1 = o.k2) /\ ("deq12" \in DOMAIN o => (o.deq12 <=> o.dk1 = o.dk2))
+        THEN {} ELSE {"EqualIffKeyS"})
+ViolP3(o) == IF (o.eq12 /\ o.eq23 => o.eq13) /\ ("deq12" \in DOMAIN o => (o.deq12 /\ o.deq23 => o.deq13))
+             THEN {} ELSE {"TransitiveS"}
+
+----------------------------------------------------------------------------
 (* model checking *)
 
 VARIABLE st     \* algebra: an address; string: a symbol sequence
@@ -209,11 +259,14 @@ Init == IF Layer = "algebra" THEN st \in {[lp |-> l, dom |-> <<t>>] : l \in Lps,
 Next == \/ /\ Layer = "string"
            /\ Len(st) < StrLen
            /\ \E c \in Sym : st' = Append(st, c)
+        \/ /\ Layer = "string2"
+           /\ Len(st) < 2
+           /\ \E c \in Sym2 : st' = Append(st, c)
         \/ /\ Layer = "algebra"
            /\ Len(st.dom) = 1
            /\ \E d \in Labs : st' = [lp |-> st.lp, dom |-> <<d, st.dom[1]>>]
 Spec == Init /\ [][Next]_st
-Complete == Layer = "string" \/ Len(st.dom) = 2
+Complete == Layer \in {"string", "string2"} \/ Len(st.dom) = 2
 
 AlgebraLaws ==
   Layer = "algebra" /\ Complete =>
@@ -226,6 +279,13 @@ AlgebraLaws ==
                        /\ (UForm(st) => ToUnicodeM(st) = st)
 StringLaws ==
   Layer = "string" => ViolS(st, ModelS(Devs, st) @@ [panics |-> <<>>]) = {}
+
+\* comparison of arbitrary strings: every pair with st, every triple of look-alikes
+CompareLaws ==
+  Layer = "string2" =>
+    /\ \A t \in Strs2 : ViolP2(ModelP2(st, t)) = {}
+    /\ \A t, u \in {x \in Strs2 : Alike(st, x)} : ViolP3(ModelP3(st, t, u)) = {}
+EmitOrbit == Gen /\ Layer = "string2" /\ st = <<>> => PrintT(<<"ORBIT", ToJson(Orbit)>>)
 
 Emit == Gen /\ Complete => PrintT(<<"ROW", ToJson(st)>>)
 =============================================================================
